@@ -462,3 +462,8 @@ Fixpoint no_ci_lit (t : node) : bool :=
   | NExprCond _ c yes no => no_ci_lit c && no_ci_lit yes && match no with Some n => no_ci_lit n | None => true end
   | _ => true
   end.
+
+(* the child of the leading positive lookahead found by findLeadingPositiveLookahead (if any) is a
+   well-shaped left-to-right tree without case-insensitive literals *)
+Definition look_ok (t : node) : bool :=
+  match fst (lead_pos_look t) with Some c => shape_ok false c && no_ci_lit c | None => true end.
